@@ -38,6 +38,10 @@ var texts = []string{
 
 const writeText = "INSERT INTO kvs(k,v) VALUES(?,?)"
 
+// readBackText: inside the writer's transaction, its own uncommitted row is
+// read back through Row() (the QueryRowContext path and its unprepared fallback).
+const readBackText = "SELECT v FROM kvs WHERE k = ?"
+
 type Op struct {
 	Kind   string `json:"kind"` // use tx wtx reset close
 	Text   int    `json:"text,omitempty"`
@@ -120,6 +124,9 @@ func (Prop) Gen(r *core.Rand, tier string) interface{} {
 			switch x := r.Intn(10); {
 			case x < 5:
 				f.Kind, f.Type = "prepare", "err"
+				if r.Chance(25) {
+					f.SQL, f.Occ = readBackText, 0 // the writer's read-back falls back to the unprepared path
+				}
 			case x < 8:
 				f.Kind, f.Type, f.Burst = "query", "bad_conn", 3
 			default:
@@ -366,6 +373,23 @@ func (rs *runState) client(t int, base *gorm.DB) {
 			}
 			k, v := fmt.Sprintf("w%d", op.Arg), fmt.Sprintf("val%d", op.Arg)
 			err := tx.Exec(writeText, k, v).Error
+			if err == nil {
+				r := rec{Task: t, Kind: "readback", InTx: true, Call: rs.e.Drv.Tick(), Want: v}
+				var got string
+				func() {
+					defer func() {
+						if pv := recover(); pv != nil {
+							r.Err = fmt.Sprintf("panic in Row().Scan: %v", pv)
+						}
+					}()
+					if e := tx.Raw(readBackText, k).Row().Scan(&got); e != nil {
+						r.Err = e.Error()
+					}
+				}()
+				r.Result = got
+				r.Return = rs.e.Drv.Tick()
+				rs.recs[t] = append(rs.recs[t], r)
+			}
 			if err == nil && op.Commit {
 				if tx.Commit().Error == nil {
 					rs.wrote = append(rs.wrote, [2]string{k, v})
@@ -665,6 +689,25 @@ func (p Prop) Run(ci interface{}, focus *core.Violation) *core.Outcome {
 			hist = append(hist, porcupine.Operation{ClientId: r.Task, Input: hInput{close: true}, Call: r.Call, Output: hOutput{}, Return: r.Return})
 			continue
 		case "reset":
+			continue
+		case "readback":
+			// the transaction reads its own uncommitted row: the value, an injected
+			// fault or a closed-cache error; never "no rows" (that is another connection's view)
+			switch {
+			case r.Err == "" && r.Result != r.Want:
+				if report("wrong_rows", "readback", fmt.Sprintf("task %d: the writer's transaction read back %q for the row it had just written with %q", r.Task, r.Result, r.Want)) {
+					return o
+				}
+			case strings.Contains(r.Err, "no rows in result set"):
+				if report("wrong_rows", "readback|own_write_invisible", fmt.Sprintf("task %d: the writer's transaction does not see the row it has just written (%q returned %q): the statement did not run on the transaction's connection", r.Task, readBackText, r.Err)) {
+					return o
+				}
+			case r.Err == "" || strings.Contains(r.Err, "simfault#") || isClosedErr(r.Err) || strings.Contains(r.Err, "bad connection") || strings.Contains(r.Err, simpool.ErrAborted.Error()):
+			default:
+				if report("unexpected_error", "readback|"+firstWords(r.Err, 5), fmt.Sprintf("task %d: the writer's read-back returned %q", r.Task, r.Err)) {
+					return o
+				}
+			}
 			continue
 		}
 		if r.Err == "" {
